@@ -148,3 +148,53 @@ META["C12"] = {
     "stub": ["the placement of the buffer (arena owned by the simulator)"],
     "assumptions": DOC_ASSUMPTIONS + ["the block list is the writer-side schema of the fault-free run (rows produced by write_bytes), independent of the reader-side check under test"],
 }
+
+WORLD_REAL = REAL_COMMON + ["Serialize::store, load_full, load_mem, load_mmap, mmap on real files in a private scratch directory (kernel file system, mmap, munmap, mprotect, madvise)",
+                            "mmap-rs", "real OS threads (three actors); MemCase really is moved, shared, read and dropped across threads"]
+WORLD_STUB = ["the choice of which actor runs which operation next (baton scheduler: exactly one runnable thread)",
+              "the global allocator's bookkeeping (tracking allocator: junk fill, poison, quarantine, suppression of invalid frees) over the real system allocator",
+              "mmap/munmap/mprotect/madvise entry points (interposed to keep the mapping table and inject ENOMEM / EACCES; forwarded to the kernel)",
+              "damage to stored bytes between store and load (header flips, foreign tags, truncation)"]
+
+META["C08"] = {
+    "level": "exploration",
+    "builds": ["default", "nommap"],
+    "rule": "seeded schedules of 6..18 operations over 3 actor threads and a pool of files/structures: store (fresh file or over a longer existing one), load with each of the "
+            "loaders available in the build x all 8 flag sets, verify, move/re-box, shared read by two threads, unlink, rewrite the file under copying loaders, drop on any thread. "
+            "After every step every live structure is compared with the reference (deserialize of the file bytes), its borrowed parts with its backing region, the region with "
+            "the alignment/length/zero-tail rules, the madvise advice with the flags, regions pairwise. A run is non-trivial when a structure was dropped on a thread other "
+            "than the one that loaded it; distinct = distinct op lists among those",
+    "exhaustive_dimensions": [],
+    "sampled_dimensions": ["operation schedules", "documents and values (file lengths of every residue mod 64 via Padded<..>)", "loader x flag set", "actor assignment"],
+    "expected_probes": ["read_on_other_thread", "dropped_on_other_thread", "case_moved_to_new_address", "shared_read_two_threads", "read_after_unlink",
+                        "read_after_file_rewritten", "store_over_longer_file", "drop_probe_saw_intact_data"],
+    "real": WORLD_REAL,
+    "stub": WORLD_STUB[:3],
+    "assumptions": DOC_ASSUMPTIONS[:1] + [
+        "MemCase has no interior mutability: the schedule matters through ownership transfer, drop site, allocator reuse and file events between load and use",
+        "region rules: heap region aligned to MemoryAlignment, copying loaders' length = file length rounded up to a multiple of 16 within one page, zero tail; mmap length = file length",
+        "flag sets containing TRANSPARENT_HUGE_PAGES are run only if the kernel accepts MADV_HUGEPAGE when asked directly by the harness (reported as env.thp_unsupported_skipped otherwise)",
+        "the compile-time facet (MemCase<&'static [u64]>: Send + Sync) is observed by the probe crate probes/send_sync",
+    ],
+}
+
+META["C09"] = {
+    "level": "exploration",
+    "builds": ["default", "nommap"],
+    "rule": "the C08 schedules plus failing loads on every loader (wrong type, single-bit header corruption, reversed cookie, foreign tag, truncation at any per-mille, empty file, "
+            "mmap -> ENOMEM, mprotect -> EACCES) and the escape client (copy a &'static slice out of the case through Deref / AsRef, read it after the case was dropped). Oracle = "
+            "conservation at the end of every run (no library-made heap block, no loader mapping live), release exactly once with the right layout / range, region live and unchanged "
+            "while its owner lives, structure dropped before its backing (DropProbe). A run is non-trivial when it contains a failing load, a cross-thread drop or a read through an "
+            "escaped reference; distinct = distinct op lists among those",
+    "exhaustive_dimensions": [],
+    "sampled_dimensions": ["operation schedules", "failure cause x loader x flag set", "documents and values", "actor assignment"],
+    "expected_probes": ["read_on_other_thread", "dropped_on_other_thread", "drop_probe_saw_intact_data", "escaped_static_ref.deref-copy", "escaped_static_ref.asref-copy"],
+    "real": WORLD_REAL,
+    "stub": WORLD_STUB,
+    "assumptions": DOC_ASSUMPTIONS[:1] + [
+        "a leak is library-made memory (allocated inside a library call) or a loader-made mapping still live after every structure and every error value of the run was dropped",
+        "madvise failure is not injected: mmap-rs 0.6.1 itself leaks the mapping on that path (dependency, outside the repository)",
+        "use-after-release through an escaped 'static reference is decided from the recorded history (owner dropped => region released); the heap case additionally reads the quarantined block and shows the poison",
+        "the lifetime facet (deserialize_eps results cannot outlive their buffer) is rustc's; it is observed by the probe crates probes/eps_outlive (must not compile) and probes/escape_static",
+    ],
+}
